@@ -134,7 +134,7 @@ func ruleC05c(c *Ctx) {
 func init() {
 	register(&PropSpec{
 		ID:          "C05",
-		Explanation: "Decides three structural clauses: (1) operands are never modified — the purity obligations of the write-effect analysis on Sequence.Merge/SubMerge/Truncate, every Expr.Merge/Get and every SubMerge function (exactly the property's 'never modifies its operands'); (2) every combiner reads both operands (an operand-ignoring merge cannot be a homomorphism); (3) cached encoded widths agree with the wrapped expression. Added clauses: shift sub-mergers offset with the source's width; Merge returns a raw operand only when the other is empty; the expiry early-out of Merge tests the older operand's Until().",
+		Explanation: "Decides three structural clauses: (1) operands are never modified — the purity obligations of the write-effect analysis on Sequence.Merge/SubMerge/Truncate, every Expr.Merge/Get and every SubMerge function (exactly the property's 'never modifies its operands'); (2) every combiner reads both operands (an operand-ignoring merge cannot be a homomorphism); (3) cached encoded widths agree with the wrapped expression. Added clauses: shift sub-mergers offset with the source's width; Merge returns a raw operand only when the other is empty; the expiry early-out of Merge tests the older operand's Until(). Further clauses: Update/Merge advance the buffer (= C01.h); SubMerge reads the receiver's bounds from Truncate's result.",
 		NotDecided:  []string{"commutativity/associativity in value", "alignment arithmetic of Merge (lead/overlap/gap/tail), SubMerge index arithmetic, Truncate boundaries — these quantify over numeric values"},
 		Assumptions: []string{"external pure-reader table follows documented contracts", "VTA call graph over-approximates dynamic calls"},
 		Rules:       []func(*Ctx){func(c *Ctx) { rulePurity(c, "C05.a") }, ruleC05b, ruleC05c, func(c *Ctx) { ruleC05d(c, "C05.d") }, func(c *Ctx) { ruleC05e(c, "C05.e") }, func(c *Ctx) { ruleMergeExpiry(c, "C05.f") }, func(c *Ctx) { ruleExprAdvances(c, "C05.g") }, func(c *Ctx) { ruleC05h(c, "C05.h") }},
